@@ -32,3 +32,23 @@ Definition mktm (h mi s us : Z) (off : option Z) (fold : Z) : val :=
   VTime {| th := h; tmi := mi; ts := s; tus := us; toff := off; tfold := fold |}.
 Definition oS (s : string) : val := VText CStr s.
 Definition oB (s : string) : val := VText CBytes s.
+
+(* ---- round 4: two-call histories over the non-temporal scalar kinds.  str(w) and str(v) are interpreter answers
+   supplied by the harness (never through typelib): the runtime of a case writes [cw] for the warming value and [cv]
+   for every other one; nothing else of the runtime is consulted by run_hist.  Only the observations on v are
+   compared (a warming call on, say, an enum member is outside this model). *)
+Definition pair_rt (w : val) (cw cv : string) : Runtime := {|
+  utf8_decode := utf8_decode toy_rt; utf8_encode := utf8_encode toy_rt;
+  canon_text := fun x => if val_eqb x w then cw else cv;
+  int_of_str := int_of_str toy_rt; float_of_str := float_of_str toy_rt; dec_of_str := dec_of_str toy_rt;
+  frac_of_str := frac_of_str toy_rt; uuid_of_str := uuid_of_str toy_rt; uuid_of_int := uuid_of_int toy_rt;
+  path_of_str := path_of_str toy_rt; enum_of_val := enum_of_val toy_rt; int_of_float := int_of_float toy_rt;
+  float_of_int := float_of_int toy_rt; load := load toy_rt; pendulum_parse := pendulum_parse toy_rt;
+  time_fromisoformat := time_fromisoformat toy_rt; fromtimestamp_utc := fromtimestamp_utc toy_rt;
+  timestamp := timestamp toy_rt; td_total_seconds := td_total_seconds toy_rt; td_of_seconds := td_of_seconds toy_rt;
+  is_digit_str := is_digit_str toy_rt; is_member := is_member toy_rt; enum_base := enum_base toy_rt;
+  py_eq := py_eq toy_rt; truthy := truthy toy_rt; re_compile := re_compile toy_rt; pattern_text := pattern_text toy_rt |}.
+Definition scalar_call (ow : hop) (w v : val) : list (hop * val) := [(ow, w); (HMarshal, v); (HStr, v); (HBytes, v)].
+Definition spair_case_ok (c : hop * val * val * string * string * list val) : bool :=
+  let '(ow, w, v, cw, cv, obs) := c in
+  vals_eqb (tl (run_hist (pair_rt w cw cv) [] (scalar_call ow w v))) obs.
